@@ -606,6 +606,21 @@ Definition of_arrow (arrow : schema) : outcome schema :=
   let s := set_field_id arrow None in
   match validate s with Ok _ => Ok s | Err => Err | Panic => Panic end.
 
+(* Dataset::drop_columns (rust/lance/src/dataset/schema_evolution.rs): every column must resolve;
+   new schema = exclude(schema, project(schema, columns)); dropping everything is refused. *)
+Definition drop_columns (s : schema) (cols : list str) : outcome schema :=
+  if existsb (fun c => match sfield s c with None => true | Some _ => false end) cols then Err
+  else match project s cols with
+       | Ok p =>
+           match exclude s p with
+           | Ok r => if is_nil r then Err else Ok r
+           | Err => Err
+           | Panic => Panic
+           end
+       | Err => Err
+       | Panic => Panic
+       end.
+
 (* ------------------------------------------------------------------ Projection *)
 
 (* sorted duplicate-free id lists stand for HashSet<i32> *)
@@ -928,3 +943,7 @@ Definition pbfield_eqb (p q : pbfield) : bool :=
   && meta_eqb (pb_meta p) (pb_meta q) && str_eqb (pb_ext p) (pb_ext q) && Bool.eqb (pb_upk p) (pb_upk q).
 Definition chk_to_fields (s : schema) (out : list pbfield) : bool := list_eqb pbfield_eqb (to_fields s) out.
 Definition chk_of_fields (l : list pbfield) (out : outcome schema) : bool := oschema_eqb (of_fields l) out.
+
+(* end-to-end: Dataset::drop_columns on a stored table, schema re-read from the new manifest *)
+Definition chk_drop_columns (i : schema * list str) (out : outcome schema) : bool :=
+  oschema_eqb (drop_columns (fst i) (snd i)) out.
